@@ -91,4 +91,28 @@ CLAIMS.update({
               "are proved mode-independent. Ranged rotations, find family and reads in lsb0 are load-sensitive/bounded."),
 })
 
+CLAIMS.update({
+    'C02': _p("For symbolic value and length every integer row (uint/int, be/le/ne) is proved on both sides: the setters, "
+              "Dtype.build, the keyword route Cls(row=v, length=n) and property assignment all reach the canonical n-bit "
+              "encoding (two's complement MSB first; little-endian = byte-reversed) or raise CreationError, and the getters / read "
+              "return uval/sval of the (byte-reversed) bits; hex/oct/bin/bytes/bool/bits getters and reads are proved against "
+              "their digit/identity definition. Round trips follow from the assumed int2ba/ba2int contract. Float rows, token "
+              "strings and pack are bounded (struct / tokeniser are outside the prover).", category='other'),
+    'C11': _p("Every decode-table entry (all codes of 7 formats) and every rounding-table entry (65536 binary16 values x overflow "
+              "modes) is compared, exhaustively, with an exact-rational model written from the format definitions and the "
+              "documented overflow rules; the real encoders/getters are run on every binary16 value under both option settings "
+              "and on arguments beyond binary16 (clamps). With struct.pack('>e') assumed IEEE this covers every float64 input. "
+              "e8m0/bfloat: all codes; mxint and scale: bounded.", category='other',
+              technique='complete enumeration of the finite tables against an exact-rational specification (decision by exhaustion), '
+                        'bounded differential for mxint/scale'),
+    'C14': _p("len, item get/set/delete, append, insert and pop are proved as list-of-chunks equations over data for symbolic item "
+              "width, including byte-multiplier dtypes, negative/out-of-range indices, trailing bits untouched and rollback on a "
+              "value that does not fit. Slices with a step, reverse, tolist/iteration and the element-wise operators contain "
+              "loops: bounded stand-in.", category='other'),
+    'C18': _p("Replacement tables, PACK_CODE_SIZE, parse_single_struct_token and structparser are enumerated completely against "
+              "struct.calcsize for every code x prefix x count <= 12; little-endian = byte-reversed big-endian and the native "
+              "aliases are contracts proved in C02/C15; value compatibility with struct/array is a bounded differential.",
+              category='other', technique='complete enumeration of the code tables + proved endian contracts + bounded differential against struct'),
+})
+
 NOT_APPLICABLE = {}
